@@ -8,6 +8,8 @@ import DryocVerif.Properties.C16
 import DryocVerif.Properties.C09
 import DryocVerif.Proofs.RawExtra
 import DryocVerif.Proofs.StreamPushRawExtra
+import DryocVerif.Gen.Stream
+import DryocVerif.Proofs.GenStream
 import DryocVerif.Proofs.OpenRawExtra
 import DryocVerif.Proofs.BoxOpenRawExtra
 import DryocVerif.Proofs.PwhashVerifyExtra
@@ -35,14 +37,20 @@ construction.  The second half of this file ("CODE-SHAPED models") therefore sta
 (so no panic branch is reachable, and every theorem about the total model is a theorem about the
 code-shaped one), and proves that the same code with a guard deleted DOES panic (`…Old`, `…NoGuard`).
 
-KNOWN EXCEPTION (latent defect, second review round): the secretstream functions DO panic on inputs of
-≈ 256 GiB.  The dryoc guard `len > MESSAGEBYTES_MAX = 64·(2^32 − 2)` is 64 bytes more forgiving than the
+E16, fixed (was: "KNOWN EXCEPTION, latent defect", second review round): the secretstream functions DID panic on
+inputs of ≈ 256 GiB.  The old dryoc guard `len > MESSAGEBYTES_MAX = 64·(2^32 − 2)` was 64 bytes more forgiving than the
 `chacha20` 0.9.1 / `cipher` 0.4.4 crates, whose `remaining_blocks()` is `u32::MAX − block_pos`: after
 `seek(128)` only `64·(2^32 − 3)` key-stream bytes are handed out and `apply_keystream` unwraps the error.
-`pullRaw_panics_near_max` (47 ciphertext lengths, authenticator must verify) and `pushRaw_panics_near_max`
-(64 message lengths) state it; `pullRaw_never_panics` / `pushRaw_never_panics` carry the length hypothesis.
-Not demonstrable on this machine (needs 256 GiB buffers); the total models `pull` / `push` (and therefore
-`pull_never_panics`, `push_never_panics`, `objPush_ok` below) do not see it.
+This was demonstrated on the real code with aliased 256 GiB buffers (harness op `stream_huge`: a push of
+274877906753 bytes panics), and the source was fixed: both functions now compare the MESSAGE length
+(`message.len()`, `ciphertext.len() − ABYTES`) with `KEYSTREAM_MESSAGEBYTES_MAX = MESSAGEBYTES_MAX − 64 =
+64·(2^32 − 3)`.  `pullRaw_never_panics`, `objPullCode_never_panics` now hold for ALL inputs, `pushRaw_never_panics` /
+`objPushRaw_never_panics` for every message a slice can hold; `pushRaw_err_near_max` / `pullRaw_err_near_max` say what
+happens above the limit (`Err`, nothing written).  The Old16 counter-models (`pushRawOld16`, `pullRawOld16`,
+`objPushRawOld16`, `objPullCodeOld16`) keep the pre-fix behaviour: `pullRaw_panics_near_max` (47 ciphertext lengths,
+authenticator must verify), `pushRaw_panics_near_max` (64 message lengths), `pullRaw_panic_iff` etc. are now statements
+about THEM (names kept).  The translated guards of the source (`Gen/Stream.lean`, regenerated on every run) are tied to the
+model by `translated_stream_push_guards` / `…_pull_guards` / `…_constants` / `…_push_err_iff` / `…_pull_guard_err`.
 
 NOT COVERED by the never-panic theorems — see the section "OBSERVATION" at the end: the OBJECT API takes its
 fixed-length arguments (authenticator, signature, key, nonce) as any `ByteArray<N>`, and `Vec<u8>` / `&[u8]` are
@@ -78,8 +86,8 @@ theorem pull_err_or_ok (P : Model.SecretStream.Prims) (s : Model.SecretStream.St
   exact Or.inr ⟨by omega, by omega, rfl⟩
 
 /-- the TOTAL MODEL of the classic stream push never panics: wrong buffer size is an error, everything else
-succeeds.  True by totalisation (the model has no key-stream limit); for the code as written see
-`pushRaw_never_panics` (needs `message.len() ≤ 64·(2^32 − 3)`) and `pushRaw_panics_near_max`. -/
+succeeds.  True by totalisation (the model has no length limit); for the code as written see
+`pushRaw_never_panics` (any message a slice can hold) and `pushRaw_err_near_max` (above `64·(2^32 − 3)` bytes: `Err`). -/
 theorem push_never_panics (P : Model.SecretStream.Prims) (s : Model.SecretStream.State) (ctLen : Nat) (m ad : Bytes) (tag : UInt8) :
     Model.SecretStream.push P s ctLen m ad tag ≠ .panic ∧
     (Model.SecretStream.push P s ctLen m ad tag = .err ↔ ctLen ≠ m.length + 17) := by
@@ -87,7 +95,8 @@ theorem push_never_panics (P : Model.SecretStream.Prims) (s : Model.SecretStream
   split <;> simp_all
 
 /-- the TOTAL MODEL of `DryocStream::push` always succeeds (by totalisation; for the code as written see
-`objPushRaw_eq_objPush`, which needs `message.len() ≤ 64·(2^32 − 3)`, and `objPushRaw_panics_near_max`) -/
+`objPushRaw_eq_objPush`, which needs `message.len() ≤ 64·(2^32 − 3)`, `objPushRaw_err_near_max` above that, and
+`objPushRaw_never_panics`) -/
 theorem objPush_ok (P : Model.SecretStream.Prims) (s : Model.SecretStream.State) (m ad : Bytes) (tag : UInt8) :
     ∃ c s', Model.SecretStream.objPush P s m ad tag = .ok (c, s') :=
   ⟨_, _, Proofs.SecretStream.push_eq P s m ad tag⟩
@@ -320,10 +329,16 @@ and the theorems say that the guards in front of those operations exclude it for
 section StreamRaw
 open DryocVerif.Model.SecretStream
 
-/-- `STREAM_BODY_MAX = 64·(2^32 − 3)`: the key-stream bytes ChaCha20 0.9.1 hands out after `seek(128)`;
-`MESSAGEBYTES_MAX_RAW = 64·(2^32 − 2)`: the bound the dryoc source checks.  They differ by one block. -/
+/-- `STREAM_BODY_MAX = 64·(2^32 − 3)`: the key-stream bytes ChaCha20 0.9.1 hands out after `seek(128)`, and (since
+fix E16) the value of `KEYSTREAM_MESSAGEBYTES_MAX`, the bound the dryoc source checks;
+`MESSAGEBYTES_MAX_RAW = 64·(2^32 − 2)`: the public constant, the bound the source checked before.  They differ by
+one block. -/
 theorem stream_bounds : STREAM_BODY_MAX = 274877906752 ∧ MESSAGEBYTES_MAX_RAW = 274877906816 ∧
     MESSAGEBYTES_MAX_RAW = STREAM_BODY_MAX + 64 := by decide
+
+/-- the constant of the fixed source is the crate's limit -/
+theorem keystream_messagebytes_max : KEYSTREAM_MESSAGEBYTES_MAX = STREAM_BODY_MAX ∧
+    KEYSTREAM_MESSAGEBYTES_MAX = MESSAGEBYTES_MAX - 64 := by decide
 
 /-- the crate's rule, as modelled: `seek(pos); apply_keystream(buf)` at a block boundary panics iff
 `buf.len() > 64 · (u32::MAX − pos / 64)` (`check_remaining` counts `ceil(len / 64)` blocks against
@@ -333,12 +348,18 @@ theorem keystream_rule (P : Prims) (s : State) (pos len : Nat) :
       if 64 * (2 ^ 32 - 1 - pos / 64) < len then .panic else .ok (P.chacha s.k s.nonce (pos / 64) len) :=
   Proofs.SecretStream.keystream_eq P s pos len
 
-/-- **`crypto_secretstream_xchacha20poly1305_pull`, statement by statement, equals the total model** for
-every state, message buffer, tag variable, ciphertext and associated data: after the two length guards
-none of `ciphertext.len() - ABYTES`, `ciphertext[0]`, `1 + mlen`, `&ciphertext[1..1 + mlen]`,
+/-- **`crypto_secretstream_xchacha20poly1305_pull`, statement by statement, equals the guarded total model, for
+EVERY input** — every state, message buffer, tag variable, ciphertext (any length) and associated data: after the
+three length guards none of `ciphertext.len() - ABYTES`, `ciphertext[0]`, `1 + mlen`, `&ciphertext[1..1 + mlen]`,
 `&ciphertext[1 + mlen..]`, `&_pad0[..n]`, the `size_data` copies, `message[..mlen].copy_from_slice(..)`,
-the `i64` padding arithmetic or the three `apply_keystream` calls can fail.  The only hypothesis is
-`ciphertext.len() ≤ 64·(2^32 − 3) + 17` (≈ 256 GiB), the crate's key-stream limit; no hypothesis on the message
+the `i64` padding arithmetic or the three `apply_keystream` calls can fail.  No hypothesis (since fix E16). -/
+theorem pullRaw_eq_pullChecked (P : Prims) (s : State) (m : Bytes) (tagv : UInt8) (ct ad : Bytes) :
+    pullRaw P s m tagv ct ad = pullChecked P s m tagv ct ad :=
+  Proofs.SecretStream.pullRaw_eq_pullChecked P s m tagv ct ad
+
+/-- … and equals the guard-FREE total model `pull` for every ciphertext the third guard lets through
+(`ciphertext.len() ≤ 64·(2^32 − 3) + 17`).  The hypothesis is still there only because `pull` has no length guard:
+beyond the bound `pullRaw` is an `Err` (`pullRaw_err_near_max`) while `pull` computes.  No hypothesis on the message
 buffer is needed, a too small buffer is an `Err` of the function itself.
 
 What this does NOT see (reviewer's note): `pullRawWith` maps every `.err` of the body to the untouched buffers
@@ -349,47 +370,64 @@ theorem pullRaw_eq_pull (P : Prims) (s : State) (m : Bytes) (tagv : UInt8) (ct a
     (h : ct.length ≤ STREAM_BODY_MAX + 17) : pullRaw P s m tagv ct ad = pull P s m tagv ct ad :=
   Proofs.SecretStream.pullRaw_eq_pull P s m tagv ct ad h
 
-/-- the `MESSAGEBYTES_MAX_RAW` guard: an over-long ciphertext is an `Err` that changes nothing.  (It was meant to
-keep `cipher.seek(128); cipher.apply_keystream(&mut message[..mlen])` inside the key stream; it is one
-block too generous, see `pullRaw_panics_near_max`.) -/
+/-- **fixed code (E16): the third guard `ciphertext.len() − ABYTES > KEYSTREAM_MESSAGEBYTES_MAX`.**  An over-long
+ciphertext — the 47 lengths on which the code before the fix panicked included — is an `Err` that changes nothing
+(state, message buffer, tag variable), whatever the buffer size and the authenticator.  It keeps
+`cipher.seek(128); cipher.apply_keystream(&mut message[..mlen])` inside the key stream the crate hands out. -/
+theorem pullRaw_err_near_max (P : Prims) (s : State) (m : Bytes) (tagv : UInt8) (ct ad : Bytes)
+    (h : STREAM_BODY_MAX + 17 < ct.length) : pullRaw P s m tagv ct ad = ⟨.err, m, tagv, s⟩ :=
+  Proofs.SecretStream.pullRaw_err_near_max P s m tagv ct ad h
+
+/-- the same under its old name (the hypothesis was `MESSAGEBYTES_MAX_RAW < ct.length`; it is weaker now) -/
 theorem pullRaw_too_long (P : Prims) (s : State) (m : Bytes) (tagv : UInt8) (ct ad : Bytes)
-    (h : MESSAGEBYTES_MAX_RAW < ct.length) : pullRaw P s m tagv ct ad = ⟨.err, m, tagv, s⟩ :=
+    (h : STREAM_BODY_MAX + 17 < ct.length) : pullRaw P s m tagv ct ad = ⟨.err, m, tagv, s⟩ :=
   Proofs.SecretStream.pullRaw_too_long P s m tagv ct ad h
 
-/-- **the classic `pull` as written never panics on a ciphertext of at most `64·(2^32 − 3) + 17` bytes**: any
-primitives, state, buffer (any size, empty included), ciphertext, associated data -/
-theorem pullRaw_never_panics (P : Prims) (s : State) (m : Bytes) (tagv : UInt8) (ct ad : Bytes)
-    (h : ct.length ≤ STREAM_BODY_MAX + 17) :
-    (pullRaw P s m tagv ct ad).res ≠ .panic :=
-  Proofs.SecretStream.pullRaw_never_panics P s m tagv ct ad h
+/-- non-vacuity (lengths only): a ciphertext one byte above the limit -/
+example : ∃ ct : Bytes, STREAM_BODY_MAX + 17 < ct.length :=
+  ⟨List.replicate (STREAM_BODY_MAX + 18) 0, by rw [List.length_replicate]; omega⟩
 
-/-- … nor on one longer than `MESSAGEBYTES_MAX_RAW`.  This is the weakest hypothesis on the length alone. -/
-theorem pullRaw_never_panics_outside_window (P : Prims) (s : State) (m : Bytes) (tagv : UInt8) (ct ad : Bytes)
+/-- **the classic `pull` as written never panics**: any primitives, state, buffer (any size, empty included),
+ciphertext (ANY length), associated data.  No hypothesis (since fix E16). -/
+theorem pullRaw_never_panics (P : Prims) (s : State) (m : Bytes) (tagv : UInt8) (ct ad : Bytes) :
+    (pullRaw P s m tagv ct ad).res ≠ .panic :=
+  Proofs.SecretStream.pullRaw_never_panics P s m tagv ct ad
+
+/-- kept under its old name: there is no window of lengths to stay out of any more (for the code before the fix:
+`pullRawOld16_never_panics_outside_window`) -/
+theorem pullRaw_never_panics_outside_window (P : Prims) (s : State) (m : Bytes) (tagv : UInt8) (ct ad : Bytes) :
+    (pullRaw P s m tagv ct ad).res ≠ .panic :=
+  Proofs.SecretStream.pullRaw_never_panics_outside_window P s m tagv ct ad
+
+/-- pre-fix code (E16): no panic outside the 47-length window.  This was the weakest hypothesis on the length alone. -/
+theorem pullRawOld16_never_panics_outside_window (P : Prims) (s : State) (m : Bytes) (tagv : UInt8) (ct ad : Bytes)
     (h : ct.length ≤ STREAM_BODY_MAX + 17 ∨ MESSAGEBYTES_MAX_RAW < ct.length) :
-    (pullRaw P s m tagv ct ad).res ≠ .panic :=
-  Proofs.SecretStream.pullRaw_never_panics_outside_window P s m tagv ct ad h
+    (pullRawOld16 P s m tagv ct ad).res ≠ .panic :=
+  Proofs.SecretStream.pullRawOld16_never_panics_outside_window P s m tagv ct ad h
 
-/-- **LATENT DEFECT of the code at ≈ 256 GiB inputs.**  A ciphertext whose length lies strictly between
-`64·(2^32 − 3) + 17` and `MESSAGEBYTES_MAX = 64·(2^32 − 2)` (47 lengths), whose authenticator verifies, pulled
-into a buffer that is large enough, passes all three guards of the source and then PANICS in
-`cipher.apply_keystream(&mut message[..mlen])` (the `unwrap()` of `StreamCipherError`): ChaCha20 0.9.1 hands
-out `u32::MAX − 2` blocks after `seek(128)`, the message needs one more.  At that moment `*tag` and a copy of
-the (still encrypted) body have been written, the state has not.  Proved from lengths alone — no 256 GiB list
-is constructed — and therefore not demonstrable by a run on this machine. -/
+/-- **pre-fix code (E16) — the defect, about the counter-model `pullRawOld16`** (name kept).  A ciphertext whose
+length lies strictly between `64·(2^32 − 3) + 17` and `MESSAGEBYTES_MAX = 64·(2^32 − 2)` (47 lengths), whose
+authenticator verifies, pulled into a buffer that is large enough, passed all three guards of the OLD source and
+then PANICKED in `cipher.apply_keystream(&mut message[..mlen])` (the `unwrap()` of `StreamCipherError`): ChaCha20
+0.9.1 hands out `u32::MAX − 2` blocks after `seek(128)`, the message needs one more.  At that moment `*tag` and a
+copy of the (still encrypted) body had been written, the state had not.  Proved from lengths alone — no 256 GiB
+list is constructed; the sending-side twin was demonstrated on the real code (harness op `stream_huge`).  The
+current code returns `Err` on these inputs: `pullRaw_err_near_max`. -/
 theorem pullRaw_panics_near_max (P : Prims) (s : State) (m : Bytes) (tagv : UInt8) (ct ad : Bytes)
     (h1 : STREAM_BODY_MAX + 17 < ct.length) (h2 : ct.length ≤ MESSAGEBYTES_MAX_RAW)
     (hm : ct.length - 17 ≤ m.length)
     (hauth : ct.drop (1 + (ct.length - 17)) = Proofs.SecretStream.pullMac P s ct ad) :
-    (pullRaw P s m tagv ct ad).res = .panic := by
-  rw [Proofs.SecretStream.pullRaw_panics_near_max P s m tagv ct ad h1 h2 hm hauth]
+    (pullRawOld16 P s m tagv ct ad).res = .panic ∧ pullRaw P s m tagv ct ad = ⟨.err, m, tagv, s⟩ := by
+  rw [Proofs.SecretStream.pullRawOld16_panics_near_max P s m tagv ct ad h1 h2 hm hauth]
+  exact ⟨rfl, Proofs.SecretStream.pullRaw_err_near_max P s m tagv ct ad h1⟩
 
-/-- **exactly when the classic `pull` as written panics** (so the hypothesis of `pullRaw_never_panics` cannot be
-weakened except by looking at the authenticator or the buffer size) -/
+/-- **pre-fix code (E16): exactly when the classic `pull` before the fix panicked** (about `pullRawOld16`; name
+kept).  For the current code the left-hand side is never true: `pullRaw_never_panics`. -/
 theorem pullRaw_panic_iff (P : Prims) (s : State) (m : Bytes) (tagv : UInt8) (ct ad : Bytes) :
-    (pullRaw P s m tagv ct ad).res = .panic ↔
+    (pullRawOld16 P s m tagv ct ad).res = .panic ↔
       STREAM_BODY_MAX + 17 < ct.length ∧ ct.length ≤ MESSAGEBYTES_MAX_RAW ∧ ct.length - 17 ≤ m.length ∧
         ct.drop (1 + (ct.length - 17)) = Proofs.SecretStream.pullMac P s ct ad :=
-  Proofs.SecretStream.pullRaw_panic_iff P s m tagv ct ad
+  Proofs.SecretStream.pullRawOld16_panic_iff P s m tagv ct ad
 
 /-- non-vacuity witness for `pullRaw_panics_near_max`, symbolically (lengths only, nothing is evaluated): with
 a constant 16-byte "authenticator" the all-zero ciphertext of `MESSAGEBYTES_MAX_RAW` bytes meets every
@@ -407,6 +445,15 @@ example : ∃ (P : Prims) (s : State) (m ct ad : Bytes),
     unfold zeros
     congr 1
 
+/-- what fix E16 changed on the receiving side, exactly: outside the 47-length window the code before the fix is the
+current code -/
+theorem pullRawOld16_eq_pullRaw (P : Prims) (s : State) (m : Bytes) (tagv : UInt8) (ct ad : Bytes)
+    (h : ct.length ≤ STREAM_BODY_MAX + 17 ∨ MESSAGEBYTES_MAX_RAW < ct.length) :
+    pullRawOld16 P s m tagv ct ad = pullRaw P s m tagv ct ad :=
+  Proofs.SecretStream.pullRawOld16_eq_pullRaw P s m tagv ct ad h
+
+example : ∃ ct : Bytes, ct.length ≤ STREAM_BODY_MAX + 17 ∨ MESSAGEBYTES_MAX_RAW < ct.length := ⟨[], Or.inl (by simp)⟩
+
 /-- **counter-model (fix E5 is load-bearing)**: the same statements without the
 `ciphertext.len() < ABYTES` guard panic in `ciphertext.len() - ABYTES` for EVERY ciphertext shorter than
 17 bytes, with nothing written; for longer ciphertexts the old code is the current code -/
@@ -418,37 +465,69 @@ theorem pullRawOld_eq_of_long (P : Prims) (s : State) (m : Bytes) (tagv : UInt8)
     (h : 17 ≤ ct.length) : pullRawOld P s m tagv ct ad = pullRaw P s m tagv ct ad :=
   Proofs.SecretStream.pullRawOld_eq_of_long P s m tagv ct ad h
 
-/-- **`crypto_secretstream_xchacha20poly1305_push`, statement by statement, equals the total model** for every
-message of at most `64·(2^32 − 3)` bytes, every ciphertext buffer (content and size; a wrong size is the `Err`
-of both), AD, tag byte and state: `message.len() + ABYTES`, `ciphertext[0] = block[0]`,
-`ciphertext[1..1 + mlen].copy_from_slice(message)`, the three `apply_keystream` calls, the `size_data` copies,
-the `i64` padding arithmetic, `&_pad0[0..n]` and the two slice writes of `mac.finalize(&mut ciphertext[1 + mlen..])`
-all succeed.  `WF P`: the key stream has the requested length and the authenticator has 16 bytes. -/
+/-- **`crypto_secretstream_xchacha20poly1305_push`, statement by statement, equals the guarded total model** for every
+message a slice can hold (`message.len() + 17 < 2^64`; a Rust slice has at most `isize::MAX` bytes), every ciphertext
+buffer (content and size; a wrong size is the `Err` of both), AD, tag byte and state: `message.len() + ABYTES`,
+`ciphertext[0] = block[0]`, `ciphertext[1..1 + mlen].copy_from_slice(message)`, the three `apply_keystream` calls, the
+`size_data` copies, the `i64` padding arithmetic, `&_pad0[0..n]` and the two slice writes of
+`mac.finalize(&mut ciphertext[1 + mlen..])` all succeed.  `WF P`: the key stream has the requested length and the
+authenticator has 16 bytes.  No bound on the message length (since fix E16). -/
+theorem pushRaw_eq_pushChecked (P : Prims) (hP : Proofs.SecretStream.WF P) (s : State) (ct msg ad : Bytes) (tag : UInt8)
+    (hm : msg.length + 17 < 2 ^ 64) :
+    pushRaw P s ct msg ad tag = pushChecked P s ct.length msg ad tag :=
+  Proofs.SecretStream.pushRaw_eq_pushChecked P hP s ct msg ad tag hm
+
+/-- … and equals the guard-FREE total model `push` for every message the length guard lets through (at most
+`64·(2^32 − 3)` bytes); the hypothesis is there only because `push` has no length guard -/
 theorem pushRaw_eq_push (P : Prims) (hP : Proofs.SecretStream.WF P) (s : State) (ct msg ad : Bytes) (tag : UInt8)
     (h : msg.length ≤ STREAM_BODY_MAX) :
     pushRaw P s ct msg ad tag = push P s ct.length msg ad tag :=
   Proofs.SecretStream.pushRaw_eq_push P hP s ct msg ad tag h
 
-/-- **the classic `push` as written never panics on a message of at most `64·(2^32 − 3)` bytes** -/
+/-- **the classic `push` as written never panics** on any message a slice can hold — no bound on the length other than
+`usize` arithmetic (since fix E16; before: `message.len() ≤ 64·(2^32 − 3)`) -/
 theorem pushRaw_never_panics (P : Prims) (hP : Proofs.SecretStream.WF P) (s : State) (ct msg ad : Bytes)
-    (tag : UInt8) (h : msg.length ≤ STREAM_BODY_MAX) : pushRaw P s ct msg ad tag ≠ .panic :=
-  Proofs.SecretStream.pushRaw_never_panics P hP s ct msg ad tag h
+    (tag : UInt8) (hm : msg.length + 17 < 2 ^ 64) : pushRaw P s ct msg ad tag ≠ .panic :=
+  Proofs.SecretStream.pushRaw_never_panics P hP s ct msg ad tag hm
 
-/-- the `MESSAGEBYTES_MAX` guard of `push` (`msg.len() + 17 < 2^64`: a fact about slices) -/
+/-- … and the slice hypothesis is exactly what is needed: the only panic branch of the model that remains reachable
+(for LISTS; no Rust slice is that long) is the `usize` overflow of `message.len() + ABYTES` -/
+theorem pushRaw_panic_iff (P : Prims) (hP : Proofs.SecretStream.WF P) (s : State) (ct msg ad : Bytes) (tag : UInt8) :
+    pushRaw P s ct msg ad tag = .panic ↔ 2 ^ 64 ≤ msg.length + 17 :=
+  Proofs.SecretStream.pushRaw_panic_iff P hP s ct msg ad tag
+
+example : ∃ msg : Bytes, msg.length + 17 < 2 ^ 64 := ⟨[], by decide⟩
+example : ∃ msg : Bytes, 2 ^ 64 ≤ msg.length + 17 := ⟨List.replicate (2 ^ 64) 0, by rw [List.length_replicate]; omega⟩
+
+/-- **fixed code (E16): the length guard `message.len() > KEYSTREAM_MESSAGEBYTES_MAX` of `push`** — a message of more
+than `64·(2^32 − 3)` bytes, the 64 lengths on which the code before the fix panicked included, is an `Err`; nothing has
+been written (`msg.len() + 17 < 2^64`: a fact about slices) -/
+theorem pushRaw_err_near_max (P : Prims) (s : State) (ct msg ad : Bytes) (tag : UInt8)
+    (hm : msg.length + 17 < 2 ^ 64) (h : STREAM_BODY_MAX < msg.length) :
+    pushRaw P s ct msg ad tag = .err :=
+  Proofs.SecretStream.pushRaw_err_near_max P s ct msg ad tag hm h
+
+/-- the same under its old name (the hypothesis was `MESSAGEBYTES_MAX_RAW < msg.length`; it is weaker now) -/
 theorem pushRaw_too_long (P : Prims) (s : State) (ct msg ad : Bytes) (tag : UInt8)
-    (hm : msg.length + 17 < 2 ^ 64) (h : MESSAGEBYTES_MAX_RAW < msg.length) :
+    (hm : msg.length + 17 < 2 ^ 64) (h : STREAM_BODY_MAX < msg.length) :
     pushRaw P s ct msg ad tag = .err :=
   Proofs.SecretStream.pushRaw_too_long P s ct msg ad tag hm h
 
-/-- **LATENT DEFECT, sending side.**  For the 64 message lengths `64·(2^32 − 3) < len ≤ 64·(2^32 − 2)` the
-classic `push`, on a buffer of the right size, passes both guards and PANICS in
-`cipher.apply_keystream(&mut ciphertext[1..1 + mlen])` — for every state, AD, tag byte and message content
-(no `WF P` needed).  Not demonstrable on this machine (≈ 256 GiB message). -/
+example : ∃ msg : Bytes, msg.length + 17 < 2 ^ 64 ∧ STREAM_BODY_MAX < msg.length :=
+  ⟨List.replicate (STREAM_BODY_MAX + 1) 0, by rw [List.length_replicate]; decide, by rw [List.length_replicate]; omega⟩
+
+/-- **pre-fix code (E16) — the defect on the sending side, about the counter-model `pushRawOld16`** (name kept).  For
+the 64 message lengths `64·(2^32 − 3) < len ≤ 64·(2^32 − 2)` the classic `push` before the fix, on a buffer of the right
+size, passed both guards and PANICKED in `cipher.apply_keystream(&mut ciphertext[1..1 + mlen])` — for every state, AD,
+tag byte and message content (no `WF P` needed).  Demonstrated on the real code with aliased 256 GiB buffers (harness
+op `stream_huge`: a push of 274877906753 bytes panics).  The current code returns `Err`: second conjunct. -/
 theorem pushRaw_panics_near_max (P : Prims) (s : State) (ct msg ad : Bytes) (tag : UInt8)
     (hl : ct.length = msg.length + 17)
     (h1 : STREAM_BODY_MAX < msg.length) (h2 : msg.length ≤ MESSAGEBYTES_MAX_RAW) :
-    pushRaw P s ct msg ad tag = .panic :=
-  Proofs.SecretStream.pushRaw_panics_near_max P s ct msg ad tag hl h1 h2
+    pushRawOld16 P s ct msg ad tag = .panic ∧ pushRaw P s ct msg ad tag = .err := by
+  have hM := Proofs.SecretStream.MESSAGEBYTES_MAX_RAW_eq
+  exact ⟨Proofs.SecretStream.pushRawOld16_panics_near_max P s ct msg ad tag hl h1 h2,
+    Proofs.SecretStream.pushRaw_err_near_max P s ct msg ad tag (by omega) h1⟩
 
 /-- non-vacuity witness (lengths only) -/
 example : ∃ ct msg : Bytes, ct.length = msg.length + 17 ∧ STREAM_BODY_MAX < msg.length ∧
@@ -456,20 +535,62 @@ example : ∃ ct msg : Bytes, ct.length = msg.length + 17 ∧ STREAM_BODY_MAX < 
   ⟨List.replicate (MESSAGEBYTES_MAX_RAW + 17) 0, List.replicate MESSAGEBYTES_MAX_RAW 0,
     by simp, by rw [List.length_replicate]; decide, by simp⟩
 
-/-- **`DryocStream::push` as written** (`resize(len + ABYTES)`, classic push, `?`) equals the total model up to the
-crate's limit, and panics in the window above it -/
+/-- what fix E16 changed on the sending side, exactly: outside the 64-length window the code before the fix is the
+current code -/
+theorem pushRawOld16_eq_pushRaw (P : Prims) (hP : Proofs.SecretStream.WF P) (s : State) (ct msg ad : Bytes) (tag : UInt8)
+    (h : msg.length ≤ STREAM_BODY_MAX ∨ MESSAGEBYTES_MAX_RAW < msg.length) :
+    pushRawOld16 P s ct msg ad tag = pushRaw P s ct msg ad tag :=
+  Proofs.SecretStream.pushRawOld16_eq_pushRaw P hP s ct msg ad tag h
+
+/-- **fixed code (E16): `push` and `pull` have the same limit.**  On a buffer of the right size `push` as written returns
+`Ok` iff the message has at most `STREAM_BODY_MAX` bytes, and the ciphertext of an accepted push is never rejected by a
+LENGTH guard of `pull` as written — `pull` returns the message, the tag byte and the state `push` ended in. -/
+theorem push_pull_same_limit (P : Prims) (hP : Proofs.SecretStream.WF P) (s : State) (buf msg ad : Bytes) (tag : UInt8)
+    (hb : buf.length = msg.length + 17) :
+    ((∃ c s', pushRaw P s buf msg ad tag = .ok (c, s')) ↔ msg.length ≤ STREAM_BODY_MAX) ∧
+    (∀ c s', pushRaw P s buf msg ad tag = .ok (c, s') →
+      ¬ c.length < 17 ∧ ¬ c.length - 17 > STREAM_BODY_MAX ∧
+      ∀ (m : Bytes) (tagv : UInt8), ¬ m.length < c.length - 17 →
+        pullRaw P s m tagv c ad = ⟨.ok msg.length, msg ++ m.drop msg.length, tag, s'⟩) :=
+  Proofs.SecretStream.push_pull_same_limit P hP s buf msg ad tag hb
+
+/-- **`DryocStream::push` as written** (`resize(len + ABYTES)`, classic push, `?`) equals the guarded total model for every
+message a slice can hold, the guard-free one up to the limit, never panics, and is an `Err` above the limit -/
+theorem objPushRaw_eq_objPushChecked (P : Prims) (hP : Proofs.SecretStream.WF P) (s : State) (msg ad : Bytes)
+    (tag : UInt8) (hm : msg.length + 17 < 2 ^ 64) :
+    objPushRaw P s msg ad tag = objPushChecked P s msg ad tag :=
+  Proofs.SecretStream.objPushRaw_eq_objPushChecked P hP s msg ad tag hm
+
 theorem objPushRaw_eq_objPush (P : Prims) (hP : Proofs.SecretStream.WF P) (s : State) (msg ad : Bytes) (tag : UInt8)
     (h : msg.length ≤ STREAM_BODY_MAX) : objPushRaw P s msg ad tag = objPush P s msg ad tag :=
   Proofs.SecretStream.objPushRaw_eq_objPush P hP s msg ad tag h
 
+theorem objPushRaw_never_panics (P : Prims) (hP : Proofs.SecretStream.WF P) (s : State) (msg ad : Bytes) (tag : UInt8)
+    (hm : msg.length + 17 < 2 ^ 64) : objPushRaw P s msg ad tag ≠ .panic :=
+  Proofs.SecretStream.objPushRaw_never_panics P hP s msg ad tag hm
+
+theorem objPushRaw_err_near_max (P : Prims) (s : State) (msg ad : Bytes) (tag : UInt8)
+    (hm : msg.length + 17 < 2 ^ 64) (h : STREAM_BODY_MAX < msg.length) :
+    objPushRaw P s msg ad tag = .err :=
+  Proofs.SecretStream.objPushRaw_err_near_max P s msg ad tag hm h
+
+/-- pre-fix code (E16), about the counter-model `objPushRawOld16` (name kept): `DryocStream::push` panicked in the
+64-length window; the current code returns `Err` there -/
 theorem objPushRaw_panics_near_max (P : Prims) (s : State) (msg ad : Bytes) (tag : UInt8)
     (h1 : STREAM_BODY_MAX < msg.length) (h2 : msg.length ≤ MESSAGEBYTES_MAX_RAW) :
-    objPushRaw P s msg ad tag = .panic :=
-  Proofs.SecretStream.objPushRaw_panics_near_max P s msg ad tag h1 h2
+    objPushRawOld16 P s msg ad tag = .panic ∧ objPushRaw P s msg ad tag = .err := by
+  have hM := Proofs.SecretStream.MESSAGEBYTES_MAX_RAW_eq
+  exact ⟨Proofs.SecretStream.objPushRawOld16_panics_near_max P s msg ad tag h1 h2,
+    Proofs.SecretStream.objPushRaw_err_near_max P s msg ad tag (by omega) h1⟩
 
-/-- **`DryocStream::pull` as written equals the total model** (guard, `len - ABYTES`, `resize`, classic
-pull on `&mut self.state`, `?`, `Tag::from_bits_retain`), for ciphertexts up to `64·(2^32 − 3) + 17` bytes;
-beyond `MESSAGEBYTES_MAX_RAW`: `Err`; in between: `objPullCode_panics_near_max` -/
+/-- **`DryocStream::pull` as written equals the guarded total model, for every ciphertext** (guard, `len - ABYTES`,
+`resize`, classic pull on `&mut self.state`, `?`, `Tag::from_bits_retain`).  No hypothesis (since fix E16). -/
+theorem objPullCode_eq_objPullChecked (P : Prims) (s : State) (ct ad : Bytes) :
+    objPullCode P s ct ad = objPullChecked P s ct ad :=
+  Proofs.SecretStream.objPullCode_eq_objPullChecked P s ct ad
+
+/-- … and the guard-FREE total model for ciphertexts up to `64·(2^32 − 3) + 17` bytes (the hypothesis is there only
+because `objPull` has no length guard); beyond: `Err` (`objPullCode_too_long`) -/
 theorem objPullCode_eq_objPull (P : Prims) (s : State) (ct ad : Bytes) (h : ct.length ≤ STREAM_BODY_MAX + 17) :
     objPullCode P s ct ad = objPull P s ct ad :=
   Proofs.SecretStream.objPullCode_eq_objPull P s ct ad h
@@ -479,33 +600,36 @@ theorem objPullCode_eq_objPullRaw (P : Prims) (s : State) (ct ad : Bytes) (h : c
     objPullCode P s ct ad = objPullRaw P s ct ad :=
   Proofs.SecretStream.objPullCode_eq_objPullRaw P s ct ad h
 
-theorem objPullCode_too_long (P : Prims) (s : State) (ct ad : Bytes) (h : MESSAGEBYTES_MAX_RAW < ct.length) :
+/-- fixed code (E16): beyond the limit an `Err`, state untouched (the hypothesis was `MESSAGEBYTES_MAX_RAW < ct.length`;
+it is weaker now) -/
+theorem objPullCode_too_long (P : Prims) (s : State) (ct ad : Bytes) (h : STREAM_BODY_MAX + 17 < ct.length) :
     objPullCode P s ct ad = (.err, s) :=
   Proofs.SecretStream.objPullCode_too_long P s ct ad h
 
-/-- **`DryocStream::pull` as written never panics** outside the 47-length window -/
-theorem objPullCode_never_panics (P : Prims) (s : State) (ct ad : Bytes)
-    (h : ct.length ≤ STREAM_BODY_MAX + 17 ∨ MESSAGEBYTES_MAX_RAW < ct.length) :
+/-- **`DryocStream::pull` as written never panics** — every ciphertext (any length), AD and state.  No hypothesis
+(since fix E16). -/
+theorem objPullCode_never_panics (P : Prims) (s : State) (ct ad : Bytes) :
     (objPullCode P s ct ad).1 ≠ .panic :=
-  Proofs.SecretStream.objPullCode_never_panics P s ct ad h
+  Proofs.SecretStream.objPullCode_never_panics P s ct ad
 
-/-- … and inside it panics on every ciphertext whose authenticator verifies (state untouched) -/
+/-- pre-fix code (E16), about the counter-model `objPullCodeOld16` (name kept): inside the window the object layer
+panicked on every ciphertext whose authenticator verifies (state untouched); the current code returns `Err` -/
 theorem objPullCode_panics_near_max (P : Prims) (s : State) (ct ad : Bytes)
     (h1 : STREAM_BODY_MAX + 17 < ct.length) (h2 : ct.length ≤ MESSAGEBYTES_MAX_RAW)
     (hauth : ct.drop (1 + (ct.length - 17)) = Proofs.SecretStream.pullMac P s ct ad) :
-    objPullCode P s ct ad = (.panic, s) :=
-  Proofs.SecretStream.objPullCode_panics_near_max P s ct ad h1 h2 hauth
+    objPullCodeOld16 P s ct ad = (.panic, s) ∧ objPullCode P s ct ad = (.err, s) :=
+  ⟨Proofs.SecretStream.objPullCodeOld16_panics_near_max P s ct ad h1 h2 hauth,
+    Proofs.SecretStream.objPullCode_too_long P s ct ad h1⟩
 
-/-- **counter-model (`Tag::from_bits(tag).expect(..)`, before the `from_bits_retain` fix)**: outside the
-near-maximum window it panics exactly on the messages the current code ACCEPTS (authenticator verified)
-whose tag byte has a bit outside `MESSAGE | PUSH | REKEY | FINAL = 0b11` — and the stream state has advanced
-by then -/
-theorem objPullOld_panics_iff (P : Prims) (s : State) (ct ad : Bytes)
-    (hlen : ct.length ≤ STREAM_BODY_MAX + 17 ∨ MESSAGEBYTES_MAX_RAW < ct.length) :
+/-- **counter-model (`Tag::from_bits(tag).expect(..)`, before the `from_bits_retain` fix)**: it panics exactly on the
+messages the current code ACCEPTS (authenticator verified) whose tag byte has a bit outside
+`MESSAGE | PUSH | REKEY | FINAL = 0b11` — and the stream state has advanced by then.  No length hypothesis (since
+fix E16). -/
+theorem objPullOld_panics_iff (P : Prims) (s : State) (ct ad : Bytes) :
     (objPullOld P s ct ad).1 = .panic ↔
       ∃ msg t st, objPullCode P s ct ad = (.ok (msg, t), st) ∧ t &&& 0xFC ≠ 0 := by
   rw [Proofs.SecretStream.objPullOld_eq]
-  have hnp := Proofs.SecretStream.objPullCode_never_panics P s ct ad hlen
+  have hnp := Proofs.SecretStream.objPullCode_never_panics P s ct ad
   rcases hr : objPullCode P s ct ad with ⟨res, st⟩
   rw [hr] at hnp
   cases res with
@@ -521,6 +645,58 @@ theorem objPullOld_panics_iff (P : Prims) (s : State) (ct ad : Bytes)
 theorem objPullNoGuard_short_panics (P : Prims) (s : State) (ct ad : Bytes) (h : ct.length < 17) :
     objPullNoGuard P s ct ad = (.panic, s) :=
   Proofs.SecretStream.objPullNoGuard_short_panics P s ct ad h
+
+/-! ### tie to the source: the guards and constants as translated on every run (`Gen/Stream.lean`) -/
+
+/-- the two guards of `crypto_secretstream_xchacha20poly1305_push` as translated from the source, in source order, are
+the ones of `pushRaw`: buffer size, then `message.len() > KEYSTREAM_MESSAGEBYTES_MAX` (= `STREAM_BODY_MAX`) -/
+theorem translated_stream_push_guards (ml cl : Nat) :
+    Gen.Stream.push_guards ml cl = [decide (cl ≠ ml + 17), decide (ml > STREAM_BODY_MAX)] :=
+  Proofs.GenStream.push_guards_eq ml cl
+
+/-- the three guards of `…_pull` as translated, in source order, are the ones of `pullRaw` -/
+theorem translated_stream_pull_guards (ml cl : Nat) :
+    Gen.Stream.pull_guards ml cl =
+      [decide (cl < 17), decide (ml < cl - 17), decide (cl - 17 > STREAM_BODY_MAX)] :=
+  Proofs.GenStream.pull_guards_eq ml cl
+
+/-- the constants as translated: `KEYSTREAM_MESSAGEBYTES_MAX` evaluates to the crate's limit, the public
+`…_MESSAGEBYTES_MAX` to libsodium's value, 64 more -/
+theorem translated_stream_constants :
+    Gen.Stream.constants.lookup "KEYSTREAM_MESSAGEBYTES_MAX" = some STREAM_BODY_MAX ∧
+    Gen.Stream.constants.lookup "CRYPTO_SECRETSTREAM_XCHACHA20POLY1305_MESSAGEBYTES_MAX" = some MESSAGEBYTES_MAX_RAW :=
+  ⟨Proofs.GenStream.constants_eq.1, Proofs.GenStream.constants_eq.2.1⟩
+
+/-- `pushRaw` returns `Err` iff one of the translated guards is true (any message a slice can hold) -/
+theorem translated_stream_push_err_iff (P : Prims) (hP : Proofs.SecretStream.WF P) (s : State) (ct msg ad : Bytes)
+    (tag : UInt8) (hm : msg.length + 17 < 2 ^ 64) :
+    pushRaw P s ct msg ad tag = .err ↔ (Gen.Stream.push_guards msg.length ct.length).any id = true :=
+  Proofs.GenStream.pushRaw_err_iff_guard P hP s ct msg ad tag hm
+
+/-- `pullRaw`: a true translated guard is an `Err` with nothing else changed; no true guard: the body (`pull`, where
+only the authenticator decides).  Every input. -/
+theorem translated_stream_pull_guard_err (P : Prims) (s : State) (m : Bytes) (tagv : UInt8) (ct ad : Bytes) :
+    pullRaw P s m tagv ct ad =
+      if (Gen.Stream.pull_guards m.length ct.length).any id = true then ⟨.err, m, tagv, s⟩
+      else pull P s m tagv ct ad :=
+  Proofs.GenStream.pullRaw_length_err_iff_guard P s m tagv ct ad
+
+/-- non-vacuity of the two bridges: no guard true / each guard alone true are all inhabited — small sizes by evaluation, the
+limit guards symbolically (lengths only, no list is evaluated) -/
+example : (Gen.Stream.push_guards 3 20).any id = false ∧ Gen.Stream.push_guards 3 19 = [true, false] := by decide
+example : ∃ msg ct : Bytes, msg.length + 17 < 2 ^ 64 ∧ Gen.Stream.push_guards msg.length ct.length = [false, true] :=
+  ⟨List.replicate (STREAM_BODY_MAX + 1) 0, List.replicate (STREAM_BODY_MAX + 1 + 17) 0, by
+    rw [List.length_replicate]; decide, by
+    rw [List.length_replicate, List.length_replicate]; decide⟩
+example : Gen.Stream.pull_guards 8 3 = [true, false, false] ∧ Gen.Stream.pull_guards 2 20 = [false, true, false] ∧
+    Gen.Stream.pull_guards 3 20 = [false, false, false] := by decide
+example : ∃ m ct : Bytes, Gen.Stream.pull_guards m.length ct.length = [false, false, true] :=
+  ⟨List.replicate (STREAM_BODY_MAX + 1) 0, List.replicate (STREAM_BODY_MAX + 1 + 17) 0, by
+    rw [List.length_replicate, List.length_replicate]; decide⟩
+/-- `pullRaw_eq_pull`, `objPullCode_eq_objPull`, `objPullCode_eq_objPullRaw`, `pushRaw_eq_push`, `objPushRaw_eq_objPush`: the
+bound is satisfiable (and so is its negation: the examples after `pullRaw_err_near_max` / `pushRaw_err_near_max`) -/
+example : ∃ ct : Bytes, ct.length ≤ STREAM_BODY_MAX + 17 := ⟨[], by simp⟩
+example : ∃ msg : Bytes, msg.length ≤ STREAM_BODY_MAX := ⟨[], by simp⟩
 
 end StreamRaw
 
@@ -1136,4 +1312,40 @@ open DryocVerif.Properties.C04
 #print axioms objBoxDecryptView_cases
 #print axioms objUnsealView_cases
 #print axioms objectView_exact
+#print axioms pullRaw_eq_pullChecked
+#print axioms pullRaw_eq_pull
+#print axioms pullRaw_err_near_max
+#print axioms pullRaw_too_long
+#print axioms pullRaw_never_panics
+#print axioms pullRaw_never_panics_outside_window
+#print axioms pullRawOld16_never_panics_outside_window
+#print axioms pullRaw_panics_near_max
+#print axioms pullRaw_panic_iff
+#print axioms pullRawOld16_eq_pullRaw
+#print axioms pushRaw_eq_pushChecked
+#print axioms pushRaw_eq_push
+#print axioms pushRaw_never_panics
+#print axioms pushRaw_panic_iff
+#print axioms pushRaw_err_near_max
+#print axioms pushRaw_too_long
+#print axioms pushRaw_panics_near_max
+#print axioms pushRawOld16_eq_pushRaw
+#print axioms push_pull_same_limit
+#print axioms objPushRaw_eq_objPushChecked
+#print axioms objPushRaw_eq_objPush
+#print axioms objPushRaw_never_panics
+#print axioms objPushRaw_err_near_max
+#print axioms objPushRaw_panics_near_max
+#print axioms objPullCode_eq_objPullChecked
+#print axioms objPullCode_eq_objPull
+#print axioms objPullCode_eq_objPullRaw
+#print axioms objPullCode_too_long
+#print axioms objPullCode_never_panics
+#print axioms objPullCode_panics_near_max
+#print axioms objPullOld_panics_iff
+#print axioms translated_stream_push_guards
+#print axioms translated_stream_pull_guards
+#print axioms translated_stream_constants
+#print axioms translated_stream_push_err_iff
+#print axioms translated_stream_pull_guard_err
 end AxiomCheck
